@@ -19,6 +19,7 @@
 // bitfield results of ~ in narrow words (C10), tree == over a shape catalogue (C09)
 //@import C10_bitfield.cpp only=^h_(ops|self|rel)_(3|9)_(u8|u16)$
 //@import C09_compare.cpp only=^h_cmp_(shapes|reinsert)
+//@import C04_variant.cpp only=^h_var_(compare_hetero|binary)_
 //@models libc_single
 #include "verif_api.h"
 #include <fcppt/make_ref.hpp>
